@@ -364,6 +364,16 @@ where
                 if di == 0 {
                     // res = pmat * ai_dft
                     self.vmp_apply_dft_to_dft(res, &ai_dft, pmat, 0, scratch_2);
+
+                    // The limbs ignored above are accumulated into by the next digits:
+                    // clears them so that the result does not depend on the prior content of res.
+                    let size_di0: usize = res.size();
+                    res.set_size(res.max_size());
+                    for col in 0..cols_out {
+                        for j in size_di0..res.size() {
+                            res.zero_at(col, j);
+                        }
+                    }
                 } else {
                     // Overwrite tmp with shifted product, then fold into res.
                     // This avoids scattered read-add-write on the res DFT buffer.
